@@ -133,12 +133,79 @@ def judge_batch(chk, batch, res, lays, per, states):
     return trans
 
 
+# ---- every column type (the alphabets above only use INT and VARCHAR columns)
+TYPED_DDL = ("create table w(k int primary key, si smallint, bi bigint, d double, de decimal(10,2), dt date, b boolean, "
+             "iv interval, bl blob, ts timestamp, s varchar not null)")
+TYPED_OPS = {
+    "W1": "insert into w values (2, 1, 10000000000, 1.5, 1.25, date '2024-02-29', true, interval '1' day, '\\x00ff', '2024-02-29 23:59:59', 'a'), "
+          "(4, -5, -70000000000, -0.25, -0.01, date '1970-01-01', false, cast('1 day 2 hours 3 seconds' as interval), 'a''b', '1970-01-01 00:00:00', ''), "
+          "(6, null, null, null, null, null, null, null, null, null, 'n')",
+    "W2": "insert into w values (1, 32767, 922337203685477, 123456.789, 12345678.90, date '9999-12-31', true, interval '-2' month, 'c\\d', '2024-02-29 00:00:00', 'x,y'), "
+          "(5, 0, -92233720368547, 0.5, 0.00, date '2023-03-01', false, cast('1 hour' as interval), '', '1969-12-31 23:59:59', ' lead')",
+    "WD": "delete from w where k < 3",
+    "WS": "insert into w select k + 10, si, bi, d, de, dt, b, iv, bl, ts, s from w",
+    "C": None,
+    "R": None,
+}
+TYPED_QUERIES = [("select * from w", None), ("select k, iv, bl, de from w order by k", [0]), ("select k, d, ts from w where k >= 4", None),
+                 ("select count(*), count(si), sum(bi), min(d), max(de), min(dt), max(ts), min(iv) from w", None),
+                 ("select b, count(*) from w group by b", None), ("select k from w where iv > interval '0' day", None)]
+
+
+def typed_part(chk, tier, lays):
+    d = 2 if tier == "quick" else 3
+    cs = [list(h) for h in U.seqs(list(TYPED_OPS), d, 1)]
+    scripts = []
+    for h in cs:
+        def steps(engine):
+            st = [{"sql": TYPED_DDL}]
+            for o in h:
+                if o == "R":
+                    st.append({"op": "reopen"} if engine == "disk" else {"op": "compact"})
+                elif o == "C":
+                    st.append({"op": "compact"})
+                else:
+                    st.append({"sql": TYPED_OPS[o]})
+            return st + [{"sql": q} for q, _ in TYPED_QUERIES]
+        scripts.append({"id": 0, "engine": "mem", "steps": steps("mem")})
+        for l in lays:
+            scripts.append({"id": 0, "engine": "disk", "opts": l, "steps": steps("disk")})
+    res = runner.run_many("sql", scripts, timeout=120)
+    per = 1 + len(lays)
+    for ci, h in enumerate(cs):
+        rs = res[ci * per:(ci + 1) * per]
+        mem = rs[0]
+        for li, l in enumerate(lays):
+            dsk = rs[1 + li]
+            base = {"kind": "typed", "history": h, "layout": l}
+            if mem.get("abort") or dsk.get("abort"):
+                chk.fail(core.case_id(base), "abort", base, {"mem": mem.get("abort"), "disk": dsk.get("abort")})
+                continue
+            mr, dr = mem["results"], dsk["results"]
+            for k, o in enumerate(h):
+                if o in ("W1", "W2") and U.status(mr[1 + k]) != "rows":
+                    chk.machinery(f"typed part: {o} is rejected: {json.dumps(mr[1 + k])[:200]}")
+            for si in range(len(h), len(mr)):            # the last history statement and every query
+                is_q = si >= 1 + len(h)
+                what = TYPED_QUERIES[si - 1 - len(h)][0] if is_q else "<last history statement>"
+                okeys = TYPED_QUERIES[si - 1 - len(h)][1] if is_q else None
+                cc = dict(base, stmt=what)
+                a, b = norm(mr[si], okeys), norm(dr[si], okeys)
+                if a == b:
+                    chk.ok(core.case_id(cc), nontrivial=True, outcome=a[0], sample={"case": cc})
+                else:
+                    sig = f"outcome:{a[0]}-vs-{b[0]}" if a[0] != b[0] else "rows-differ" if a[2] != b[2] else "column-types-differ" if a[1] != b[1] else "order-differs"
+                    chk.fail(core.case_id(cc), sig + "@typed", cc, {"mem": mr[si], "disk": dr[si]})
+    return len(scripts)
+
+
 def run(tier, seed):
     lays = layouts(tier)
     chk = core.Check("C05", tier, "model_checking",
                      f"all statement histories of length 1..{depth(tier)} over {list(OPS) if tier == 'quick' else list(ALL_OPS)} from the empty database, and all histories of length 0..{depth(tier) - 1} over {list(ALL_OPS)} from the churned start state {CHURN} (R = shutdown+reopen on disk), x table kinds {list(KINDS)}, each followed by "
                      f"{len(QUERIES)} queries (pk range scans, joins on pk, group by, order by); executed in lock-step on the memory engine and on "
-                     f"{len(lays)} disk layouts; a case = (kind, history, statement index, layout); non-trivial = history contains a DML statement", seed)
+                     f"{len(lays)} disk layouts; plus all histories of length 1..{2 if tier == 'quick' else 3} over {list(TYPED_OPS)} on a table with a column of every type (smallint, bigint, double, decimal, date, boolean, interval with a sub-day part, blob, timestamp, varchar not null); "
+                     "a case = (kind, history, statement index, layout); non-trivial = history contains a DML statement", seed)
     cs = list(cases(tier))
     per = 1 + len(lays)
     states, trans = set(), 0
@@ -155,6 +222,7 @@ def run(tier, seed):
         res = runner.run_many("sql", scripts, timeout=120)
         nscripts += len(scripts)
         trans += judge_batch(chk, batch, res, lays, per, states)
+    nscripts += typed_part(chk, tier, lays)
     chk.extra.update(states=len(states), transitions=trans, traces_validated_against_impl=nscripts,
                      histories=len(cs), layouts=lays)
     chk.assumptions += ["single session; compaction forced through the real compactor with a paused clock (no-op on the memory engine)",
